@@ -313,3 +313,29 @@ def dec(c):
             return re.compile(c['$re'], c.get('$flags', 0) & ~re.UNICODE & 0xFFFF or 0)
         raise ValueError(c)
     return c
+
+
+# ------------------------------------------------------------------ wording-independent comparison of messages
+_QUOTED = re.compile(r'"([^"]*)"')
+
+
+def norm_error(msg):
+    """Runtime-error messages are compared by what the properties pin: the kind and the names/locations they carry,
+    not the exact wording (so that rewording a message is never an alarm)."""
+    if not isinstance(msg, str):
+        return msg
+    names = tuple(_QUOTED.findall(msg))
+    if msg.startswith('Exceeded maximum script statements'):
+        return 'EXCEEDED'
+    if 'nknown jump label' in msg:
+        return ('UNKNOWN-LABEL',) + names
+    if 'ndefined function' in msg:
+        return ('UNDEFINED-FUNCTION',) + names
+    return msg
+
+
+def norm_log(line):
+    """Debug-mode diagnostics of the runtime ("BareScript: ...") are compared by position and by the names they quote."""
+    if isinstance(line, str) and line.startswith('BareScript:'):
+        return ('BareScript-debug',) + tuple(_QUOTED.findall(line))[:1]
+    return line
